@@ -265,7 +265,7 @@ func init() {
 	core.Register(&core.Prop{
 		ID:         "C11",
 		Run:        runC11,
-		QuickRuns:  300,
+		QuickRuns:  220,
 		PerProcess: 50,
 		Level:      "fault_enumeration",
 		Rule: "one evaluation = one generated artefact set: (a) a byte string pushed through the three CRC-64 implementations in tape-chosen chunkings and compared with a bitwise reference; " +
